@@ -38,8 +38,9 @@ def main():
             part = names[k::jobs]
             if not part:
                 continue
-            out = f"/tmp/seeded-results-{k}.json"
-            cmd = [sys.executable, os.path.abspath(__file__), f"--wt=/tmp/seeded-wt-{k}", f"--out={out}"] + (["--thorough"] if thorough else []) + ["--exact"] + part
+            out = f"/tmp/seeded-results-{os.getpid()}-{k}.json"
+            # worktree and result names carry the pid: two invocations at the same time do not share them
+            cmd = [sys.executable, os.path.abspath(__file__), f"--wt=/tmp/seeded-wt-{os.getpid()}-{k}", f"--out={out}"] + (["--thorough"] if thorough else []) + ["--exact"] + part
             procs.append((subprocess.Popen(cmd), out))
         results = json.load(open(rp)) if os.path.exists(rp) else {}
         for pr, out in procs:
